@@ -68,3 +68,31 @@ def jd_step(prog, which):
         elif r == "unknown":
             res["inconclusive"].append("oracle query undecided")
     return finish(res, I, S, t0)
+
+
+def jd_gmt_shift(prog, _):
+    """A gmt change of d hours moves the Julian Day of the same civil date by exactly -d/24 (two executions).
+    (That consecutive dates are exactly 1 apart follows linearly from jd_formula: value = day number + const - gmt/24.)"""
+    t0 = time.time()
+    res = new_res("JulianDay::new: gmt + d moves the value by exactly -d/24 (same date)", FUNCS[:1])
+    S = smt.Smt()
+    I = interp.Interp(prog, mode="sym", smt=S)
+    body = prog.find_body("JulianDay::new")
+    d1, c1 = chrono_model.sym_date("a", 1583, 9999)
+    g, dd = z3.Real("gmt"), z3.Real("dgmt")
+    st = interp.State()
+    st.add(c1)
+    st.add([g >= -12, g <= 12, g + dd >= -12, g + dd <= 12])
+
+    def mf(m):
+        return {"y": mval(m, d1.y), "ordinal": mval(m, d1.o), "gmt": mval(m, g), "dgmt": mval(m, dd)}
+    for o1 in std_path_checks(res, I, S, I.run_body(body, [d1, Struct("Gmt", (g,))], st=st), mf):
+        v1 = to_z3(o1.value.fields[2])
+        for o3 in std_path_checks(res, I, S, I.run_body(body, [d1, Struct("Gmt", (g + dd,))], st=o1.st.clone()), mf):
+            v3 = to_z3(o3.value.fields[2])
+            r, m = S.check(o3.st.pc + [v3 - v1 != -dd / 24], timeout_ms=60000, want_model=True)
+            if r == "sat":
+                res["cands"].append({"what": "a gmt change of d hours does not move the Julian Day by -d/24", "inputs": mf(m)})
+            elif r == "unknown":
+                res["inconclusive"].append("gmt-shift query undecided")
+    return finish(res, I, S, t0)
